@@ -1,7 +1,7 @@
 (* C08 - property theorems only (statements over the model in C08_Model).
    Domain: [wf_content] = rows match variants and samples, variant IDs unique;
    [wf_query] = the ID restriction is a set (duplicate-free). *)
-From HV Require Import Prelude BpText C07_Text C07_Model C07_Check C07_Proofs C08_Model C08_Region C08_Check C08_Proofs C08_Proofs2 C08_Proofs3.
+From HV Require Import Prelude BpText C07_Text C07_Model C07_Check C07_Proofs C08_Model C08_Region C08_Check C08_Proofs C08_Proofs2 C08_Proofs3 C08_Proofs4.
 
 (* core: VCF.  A restricted read returns exactly the full read filtered in file
    order (rows by region overlap and ID membership, columns by sample membership),
@@ -619,3 +619,92 @@ Theorem C08_read_shapes_agree :
   exists gv gp, vcf_read_q c q = Ok gv /\ pgen_read_q pload false chunk c q = Ok gp /\ g_shape gv = g_shape gp.
 Proof. exact read_shapes_agree. Qed.
 Print Assumptions C08_read_shapes_agree.
+
+(* ---- callers that hold on to what a reader handed out ------------------------------------------------
+   An iterator is a state machine; a record may point into the state (a buffer that is filled again for the
+   next record).  Three callers: (i) converts every record before asking for the next, (ii) materialises
+   all records (list(it)) and converts afterwards, (iii) converts a record after the iterator moved past
+   it.  When a record owns its data - converting it does not look at the iterator - the three see the
+   same, for every iterator, state and number of steps ... *)
+Theorem C08_iter_styles_coincide :
+  forall (St Rec Val : Type) (next : St -> option (Rec * St)) (view : St -> Rec -> Val),
+  owns_data view ->
+  forall fuel s,
+  materialise_convert next view fuel s = consume_convert next view fuel s
+  /\ interleave_convert next view fuel s = consume_convert next view fuel s.
+Proof. exact styles_coincide. Qed.
+Print Assumptions C08_iter_styles_coincide.
+
+(* ... in particular for the model's iterators, which are lists of values (vcf_iter_q / pgen_iter_q return
+   a list of records): every caller sees the list.  This is why [agree_fmt] compares ONE model value with
+   the observation of every style. *)
+Theorem C08_iter_styles_list :
+  forall (A : Type) (l : list A) fuel, (length l <= fuel)%nat ->
+  consume_convert list_next value_view fuel l = l
+  /\ materialise_convert list_next value_view fuel l = l
+  /\ interleave_convert list_next value_view fuel l = l.
+Proof. exact @list_styles. Qed.
+Print Assumptions C08_iter_styles_list.
+
+(* ... and NOT for an iterator that fills one cell and hands out pointers to it (a per-variant buffer
+   allocated once before the loop): caller (i) sees the file, caller (ii) the last genotypes under every
+   name, caller (iii) the genotypes of the following variant - the names stay right *)
+Theorem C08_iter_shared_cell_refuted :
+  let file := [(1, 10); (2, 20); (3, 30)] in
+  consume_convert cell_next cell_view 4 (file, 0) = [(1, 10); (2, 20); (3, 30)]
+  /\ materialise_convert cell_next cell_view 4 (file, 0) = [(1, 30); (2, 30); (3, 30)]
+  /\ interleave_convert cell_next cell_view 4 (file, 0) = [(1, 20); (2, 30); (3, 30)].
+Proof. exact shared_cell_refuted. Qed.
+Print Assumptions C08_iter_shared_cell_refuted.
+
+(* the checker: [holds_fmt] judges an iterator observation by what it shows; an observation of another
+   style that shows the same (res_same: equal results, or an exception both times) is judged alike *)
+Theorem C08_holds_fmt_with_iter :
+  forall strict q fo it,
+  res_same iter_eqb (fo_iter fo) it = true ->
+  holds_fmt strict q (with_iter fo it) = holds_fmt strict q fo.
+Proof. exact holds_fmt_with_iter. Qed.
+Print Assumptions C08_holds_fmt_with_iter.
+
+(* hence [held_same] beside [holds_fmt] is "the streaming iterator yields the records of the bulk read"
+   (C08_holds_fmt_sound) for EVERY consumption style observed *)
+Theorem C08_held_same_sound :
+  forall strict q fo,
+  holds_fmt strict q fo = true -> held_same fo = true ->
+  forall it, In it (fo_held fo) -> holds_fmt strict q (with_iter fo it) = true.
+Proof. exact held_same_sound. Qed.
+Print Assumptions C08_held_same_sound.
+
+(* where a refusal is accepted (C08_holds_vcf_sound), every style was refused *)
+Theorem C08_held_same_refused :
+  forall fo e, held_same fo = true -> fo_iter fo = Err e ->
+  forall it, In it (fo_held fo) -> exists e', it = Err e'.
+Proof. exact held_same_refused. Qed.
+Print Assumptions C08_held_same_refused.
+
+(* two read() calls on one object: each left what the same call leaves on a fresh object, and the arrays
+   the first call left are, after the second, what they were *)
+Theorem C08_holds_again_sound :
+  forall fo rr full rd,
+  holds_again fo = true -> fo_again fo = Some rr -> fo_full fo = Ok full -> fo_read fo = Ok rd ->
+  let a := if rr_full_first rr then full else rd in
+  let b := if rr_full_first rr then rd else full in
+  rr_first rr = Ok a /\ rr_first_kept rr = Ok a /\ rr_second rr = Ok b.
+Proof. exact holds_again_sound. Qed.
+Print Assumptions C08_holds_again_sound.
+
+(* [holds_read] as it is now demands both of either format (of the PGEN reader unless the region text is
+   one the switch STRICT_REGION_CONTIG_NAMES excuses) *)
+Theorem C08_holds_read_kept_sound :
+  forall k, holds_read k = true -> read_dom k = true ->
+  holds_vcf k = true /\ holds_kept (rc_vcf k) = true /\ holds_cross_full k = true
+  /\ (pgen_region_misread k = false ->
+      holds_fmt (rc_strict_samples k) (load_q (rc_q k)) (rc_pgen k) = true
+      /\ holds_kept (rc_pgen k) = true /\ holds_cross_restricted k = true).
+Proof. exact holds_read_kept_sound. Qed.
+Print Assumptions C08_holds_read_kept_sound.
+
+Theorem C08_holds_kept_spec :
+  forall fo, holds_kept fo = true <-> held_same fo = true /\ holds_again fo = true.
+Proof. exact holds_kept_spec. Qed.
+Print Assumptions C08_holds_kept_spec.
